@@ -27,7 +27,7 @@ def to_smt2(ctx, ob, bounded=None):
         extra += ax["exp2"]
     if "sqrt" in ax and "sqrt" in text0:
         extra += ax["sqrt"]
-    for nm in ("mulR", "mulI"):
+    for nm in ("mulR", "mulI", "divR"):
         if nm in ax and nm in text0:
             extra += ax[nm]
     # definitional axioms of the spec functions that occur (transitively)
